@@ -256,3 +256,76 @@ def approx_equal_geom(a, b, tol):
     return None
 
 
+
+
+# --------------------------------------------------------------------------
+# derived observables of a live object vs a freshly constructed equal object
+# ("the state reached by a history must answer like the same state built directly")
+
+
+def fresh_copy(obj):
+    """A new object built by the public constructors from the PRIMARY attributes of ``obj`` (corners, names, units,
+    tolerance, n, bc, subregions, values, validity, labels, mapping, unit).  Nothing is shared with ``obj``."""
+    def reg(r):
+        return df.Region(p1=np.array(r.pmin), p2=np.array(r.pmax), dims=list(r.dims), units=list(r.units),
+                         tolerance_factor=r.tolerance_factor)
+    if isinstance(obj, df.Region):
+        return reg(obj)
+    m = mesh_of(obj)
+    mesh = df.Mesh(region=reg(m.region), n=[int(i) for i in m.n], bc=m.bc,
+                   subregions={k: reg(v) for k, v in m.subregions.items()})
+    if isinstance(obj, df.Mesh):
+        return mesh
+    return df.Field(mesh, nvdim=int(obj.nvdim), value=np.array(obj.array), vdims=None if obj.vdims is None else list(obj.vdims),
+                    vdim_mapping=dict(obj.vdim_mapping), unit=obj.unit, valid=np.array(obj.valid), dtype=obj.array.dtype)
+
+
+def observables(obj):
+    """{name: value} of the public DERIVED quantities of a Region / Mesh / Field (everything that is a function of the
+    primary attributes).  Values are numpy arrays / tuples so that they can be compared bit for bit."""
+    out = {}
+    r = region_of(obj)
+    out["region.edges"] = np.asarray(r.edges, dtype=float)
+    out["region.center"] = np.asarray(r.center, dtype=float)
+    out["region.volume"] = np.asarray(float(r.volume))
+    out["region.ndim"] = r.ndim
+    out["centre in region"] = bool(r.center in r)
+    m = mesh_of(obj)
+    if m is not None:
+        out["mesh.cell"] = np.asarray(m.cell, dtype=float)
+        out["mesh.dV"] = np.asarray(float(m.dV))
+        out["len(mesh)"] = len(m)
+        for k, d in enumerate(r.dims):
+            out[f"mesh.cells.{d}"] = np.asarray(getattr(m.cells, d), dtype=float)
+            out[f"mesh.vertices.{d}"] = np.asarray(getattr(m.vertices, d), dtype=float)
+        idx = [tuple(int(x) for x in i) for i in m.indices]
+        out["mesh.indices"] = tuple(idx)
+        last = tuple(int(k) - 1 for k in m.n)
+        out["index2point(first)"] = np.asarray(m.index2point(tuple(0 for _ in last)), dtype=float)
+        out["index2point(last)"] = np.asarray(m.index2point(last), dtype=float)
+        out["point2index(centre)"] = tuple(int(x) for x in m.point2index(r.center))
+        out["coordinate_field"] = np.asarray(m.coordinate_field().array, dtype=float)
+        for name in m.subregions:
+            sm = m[name]
+            out[f"mesh[{name}].n"] = tuple(int(x) for x in sm.n)
+    if isinstance(obj, df.Field):
+        out["field.integrate()"] = np.asarray(obj.integrate())
+        out["field.mean()"] = np.asarray(obj.mean())
+        out["field.norm"] = np.asarray(obj.norm.array)
+        out["field(centre)"] = np.asarray(obj(r.center))
+    return out
+
+
+def observables_differ(a, b):
+    """first difference between two observable dictionaries, or None"""
+    for k in a:
+        if k not in b:
+            return f"{k}: missing"
+        x, y = a[k], b[k]
+        if isinstance(x, np.ndarray) or isinstance(y, np.ndarray):
+            x, y = np.asarray(x), np.asarray(y)
+            if x.shape != y.shape or not (x.tobytes() == y.tobytes() or np.array_equal(x, y, equal_nan=True)):
+                return f"{k}: {np.array2string(x.ravel()[:6], precision=17)} (live object) vs {np.array2string(y.ravel()[:6], precision=17)} (fresh object with the same attributes)"
+        elif x != y:
+            return f"{k}: {str(x)[:120]} (live object) vs {str(y)[:120]} (fresh object with the same attributes)"
+    return None
